@@ -439,7 +439,7 @@ sa_addr_port_from_str(sockaddr_storage_p addr,
 	if (NULL != ptm &&
 	    ptm > buf &&
 	    ':' != (*(ptm - 1))) { /* IPv6 or port. */
-		if (ptm > ptm_end) { /* ptm = port (':' after ']') */
+		if (NULL == ptm_end || ptm > ptm_end) { /* ptm = port (':' after ']') */
 			if (NULL == ptm_end) {
 				ptm_end = ptm;
 			}
